@@ -474,8 +474,9 @@ def w_time_plus(job):
                                     check_time_mixed, t, ua, na, ub, nb)
             for k in (10 ** 21, 2 ** 64, BIG10):
                 for ua, ub in MIX:
-                    guarded(acc, "C10/time/period-mixed", {"kind": "time-mixed", "t": t}, check_time_mixed, t, ua, k * (NSD // M.UNIT_NS[ua]),
-                            ub, -(k * (NSD // M.UNIT_NS[ub]) - 1))
+                    na, nb = k * (NSD // M.UNIT_NS[ua]), -(k * (NSD // M.UNIT_NS[ub]) - 1)
+                    guarded(acc, "C10/time/period-mixed", {"kind": "time-mixed", "t": t, "ua": ua, "na": E(na), "ub": ub, "nb": E(nb)},
+                            check_time_mixed, t, ua, na, ub, nb)
     if times:
         acc.sample({"time": times[0], "units": list(TIME_UNITS), "amounts_per_unit": len(amounts("ticks", times[0], rich))})
     return acc, sorted(new)
